@@ -324,7 +324,9 @@ def tree_pairs(ctx, rng, k):
 SWEEP_PATTERNS = ['*', '**', 'a*', '*/', '**/a', '?', '[a-b]*', '@(a|b)', '!(a)', '.*', 'a/*', '*.d', 'A', '~', '-a', '!a', '{a,b}', 'a|b',
                   'c:/*', '//h/s/*', '\\x61', 'a\\/b', '*\\\\']
 SWEEP_NAMES = ['a', 'b', 'A', 'ab', '.a', '.', '..', 'a/', 'a\\', 'a/b', 'a\\b', 'a/b/', 'a\\b\\', 'dir/\\', 'a/.', 'a/..', './a', 'c.d',
-               'c:/a', 'C:\\a', '//h/s/a', '\\\\H\\S\\a', '/', '\\', '~', '-a', '!a', '{a,b}', 'a|b', 'a.', 'a\n', ' ']
+               'c:/a', 'C:\\a', '//h/s/a', '\\\\H\\S\\a', '/', '\\', '~', '-a', '!a', '{a,b}', 'a|b', 'a.', 'a\n', ' ',
+               # directory-style names with a line feed in front of the last separator
+               'a\nb/', '\n/', 'x/a\nb/', 'a\nb/.', 'a\n/b', 'a\nb\\']
 
 
 def flag_pair_sweep(ctx):
@@ -396,9 +398,37 @@ def tilde_pairs(ctx):
                 os.environ['HOME'] = old
 
 
+def odd_tree_pairs(ctx):
+    """The walker over names with line feeds, spaces, brackets and (ordinary on POSIX) backslashes: str and bytes alike, also under NODIR / MARK."""
+    from .c05 import ODD_TREE
+    pats = ['*', 'x*', 'b*', '**', '*/', 'a*', 'sub*/*', '?', 'c*/*', '**/*.py*', '[[]*', 'q*', '*\\\\', 'b?']
+    fsets = [(), ('NODIR',), ('MARK',), ('GLOBSTAR', 'NODIR'), ('GLOBSTAR', 'MARK', 'DOTGLOB'), ('NODIR', 'IGNORECASE'), ('GLOBSTAR', 'NODIR', 'MATCHBASE')]
+    idx, todo = 0, []
+    for pat in pats:
+        for fn in fsets:
+            idx += 1
+            if ctx.mine(idx):
+                todo.append((pat, fn))
+    if not todo:
+        ctx.count('odd_tree_pairs', 0)
+        return
+    with T.Tree(ODD_TREE, 'c18o-') as tr:
+        broot = os.fsencode(tr.root)
+        for pat, fn in todo:
+            fl = flags_of(('EXTGLOB',) + fn)
+            with ctx.case(label=('odd-tree', pat, fn)):
+                wit = {'api': 'glob.glob', 'patterns': pat, 'flags': ['EXTGLOB'] + list(fn), 'tree': 'ODD_TREE'}
+                pair(ctx, 'glob on a tree of odd names', wit, lambda: sorted(G.glob(pat, flags=fl, root_dir=tr.root)),
+                     lambda: sorted(G.glob(os.fsencode(pat), flags=fl, root_dir=broot)), conv=lambda r: sorted(os.fsencode(x) for x in r))
+                pair(ctx, 'iglob + exclude on a tree of odd names', wit, lambda: sorted(G.iglob([pat], flags=fl, root_dir=tr.root, exclude='zz*')),
+                     lambda: sorted(G.iglob([os.fsencode(pat)], flags=fl, root_dir=broot, exclude=b'zz*')), conv=lambda r: sorted(os.fsencode(x) for x in r))
+                ctx.count('odd_tree_pairs', 2)
+
+
 def run(ctx):
     quick = ctx.quick
     tilde_pairs(ctx)
+    odd_tree_pairs(ctx)
     high_bytes(ctx)
     high_byte_tree(ctx)
     drive_text_pairs(ctx)
